@@ -161,6 +161,10 @@ class Spec(object):
     def nontrivial(self, cfg, res):
         return "preempted" in res.flags
 
+    def explicit_families(self, tier):
+        # complete state-space closure of the shared small networks (the monitor judges every transition of the graph)
+        return explicit_basic(tier) if tier != "quick" else []     # (pre-emptive priorities starve: the state space is infinite, see DESIGN 13.7)
+
     def families(self, tier):
         from .. import universal
         # priority pre-emption only, customers never blocked (the statement's quantifier)
